@@ -531,7 +531,7 @@ func classifyLoop(c *Ctx, f *ssa.Function, hdr *ssa.BasicBlock, loop map[*ssa.Ba
 			}
 		}
 	}
-	sx := c.Sx()
+	_ = c.Sx()
 	for _, iff := range exits {
 		bo, ok := iff.Cond.(*ssa.BinOp)
 		if ok {
@@ -566,10 +566,9 @@ func classifyLoop(c *Ctx, f *ssa.Function, hdr *ssa.BasicBlock, loop map[*ssa.Ba
 					}
 				}
 			}
-			// for len(data) > 0 { data = data[n:] } with n > 0
-			s := sx.Of(iff.Cond).String()
-			if strings.Contains(s, "len(phi(") {
-				return "slice-shrink", "loop over a slice that is re-sliced on every iteration (progress checked by C01-K3)"
+			// for len(data) > 0 { data = data[n:] } with n >= 1 on every path back to the header
+			if ok, why := sliceShrinkLoop(c, iff, bo, hdr, loop); ok {
+				return "slice-shrink", why
 			}
 		}
 		// for buf.Has(k): every path of the body performs a Lexer read
@@ -585,6 +584,58 @@ func classifyLoop(c *Ctx, f *ssa.Function, hdr *ssa.BasicBlock, loop map[*ssa.Ba
 		}
 	}
 	return "unknown", "unrecognised loop shape"
+}
+
+// sliceShrinkLoop: the exit test is len(D) > 0 (≠ 0) for a slice D carried round the loop, and every value D
+// takes on a back edge is D[n:] with n >= 1 (bounds prover): the slice gets strictly shorter
+func sliceShrinkLoop(c *Ctx, iff *ssa.If, bo *ssa.BinOp, hdr *ssa.BasicBlock, loop map[*ssa.BasicBlock]bool) (bool, string) {
+	var d ssa.Value
+	for _, pair := range [][2]ssa.Value{{bo.X, bo.Y}, {bo.Y, bo.X}} {
+		if x, ok := lenArg(pair[0]); ok {
+			if k, isK := intConst(pair[1]); isK && k == 0 {
+				d = x
+			}
+		}
+	}
+	if d == nil {
+		return false, ""
+	}
+	switch bo.Op {
+	case token.GTR, token.LSS, token.NEQ:
+	default:
+		return false, ""
+	}
+	ph, ok := d.(*ssa.Phi)
+	if !ok || !loop[ph.Block()] {
+		return false, ""
+	}
+	e, err := newE4(c, "E7")
+	if err != nil {
+		return false, ""
+	}
+	pr := e.prover()
+	n := 0
+	for i, ev := range ph.Edges {
+		pred := ph.Block().Preds[i]
+		if !loop[pred] {
+			continue
+		}
+		sl, ok := ev.(*ssa.Slice)
+		if !ok || sl.X != ssa.Value(ph) || sl.Low == nil {
+			return false, ""
+		}
+		if pr.lower(sl.Low, pr.factsOnEdge(pred, ph.Block()), 0) < 1 {
+			// the low bound may also be established at the slice instruction itself
+			if pr.lower(sl.Low, pr.factsAt(sl.Block()), 0) < 1 {
+				return false, ""
+			}
+		}
+		n++
+	}
+	if n == 0 {
+		return false, ""
+	}
+	return true, "loop while len(data) > 0 whose every back edge re-slices data[n:] with n >= 1"
 }
 
 func stepsMonotone(ph *ssa.Phi, loop map[*ssa.BasicBlock]bool) bool {
